@@ -40,6 +40,8 @@ RULE = (
     "digest. Distinct = distinct (routine, script, config)."
 )
 ASSUMPTIONS = [
+    "uninitialised memory is perturbed by filling freed heap blocks with run-specific values before each run "
+    "(np.empty then returns them); a dependence on memory that the allocator does not recycle is out of reach",
     "bitwise comparison of nnx.state of every module / optimizer passed in or returned, replay-buffer arrays, "
     "returned integers/arrays and MemoryLogger values with their (episode, step) locations; wall-clock 't' excluded",
     "single-threaded XLA on CPU (the library's default float32 regime); dependence on thread scheduling inside "
@@ -250,13 +252,30 @@ def _run_cmaes(case, cfg, logger, out):
 # ---------------------------------------------------------------------------
 # perturbation of unseeded sources
 
+def _poison_heap(k):
+    """Fill recently freed heap blocks with a run-specific value: memory handed out by np.empty
+    afterwards contains it, so a result that depends on uninitialised memory differs between runs."""
+    value = [3.0e2, 7.0e5, 1.1e9, 5.0e-3][k % 4]
+    junk = []
+    # numpy keeps freed blocks below 1 KiB in per-size caches (16-byte buckets, a few entries each):
+    # cover every bucket; larger requests go to malloc, cover them with a geometric ladder
+    sizes = list(range(2, 132, 2)) + [int(140 * 1.25 ** i) for i in range(24)]
+    for n in sizes:
+        for _ in range(10):
+            a = np.empty(n, dtype=np.float64)
+            a.fill(value)
+            junk.append(a)
+    del junk
+
+
 class _Perturb:
-    """Re-seed the global generators differently and shift the clock."""
+    """Re-seed the global generators differently, shift the clock, poison freed heap memory."""
 
     def __init__(self, k):
         self.k = k
 
     def __enter__(self):
+        _poison_heap(self.k)
         self.np_state = np.random.get_state()
         self.py_state = random.getstate()
         np.random.seed(1234567 + 977 * self.k)
@@ -292,6 +311,7 @@ def _key_class(k):
 
 def run_pair(case):
     name = case["routine"]
+    _poison_heap(0)
     a, info = execute(case)
     with _Perturb(1):
         b, _ = execute(case)
@@ -566,7 +586,7 @@ def _sched_strategy(sched):
 
 
 def _ssub(sched, quick, thorough):
-    return SubCheck("sched_" + sched, _sched_strategy(sched), run_sched_pair, quick=quick, thorough=thorough,
+    return SubCheck("sched_" + sched, _sched_strategy(sched), run_sched_pair, quick=quick, thorough=thorough, flaky_is_violation=True,
                     shards=quick, shards_thorough=8, shrink=False, suppress_too_slow=True, cost=9.0,
                     min_nontrivial_frac=0.5,
                     rule=">= 3 tasks trained and a run with seed+1 differs; SMT cases refill the training pool while "
@@ -574,7 +594,7 @@ def _ssub(sched, quick, thorough):
 
 
 def _sub(name, quick, thorough, cost):
-    return SubCheck(name, _strategy((name,)), run_pair, quick=quick, thorough=thorough, shards=quick,
+    return SubCheck(name, _strategy((name,)), run_pair, quick=quick, thorough=thorough, shards=quick, flaky_is_violation=True,
                     shards_thorough=8, shrink=False, suppress_too_slow=True, simplify=_simplify, cost=cost,
                     min_nontrivial_frac=0.5,
                     rule="run A learned (parameters changed), sampled its buffer where it has one, and a run with "
@@ -582,7 +602,7 @@ def _sub(name, quick, thorough, cost):
 
 
 def _xsub(name, cost):
-    return SubCheck("xproc_" + name, _strategy((name,)), run_cross_process, quick=1, thorough=6, shards=1,
+    return SubCheck("xproc_" + name, _strategy((name,)), run_cross_process, quick=1, thorough=6, shards=1, flaky_is_violation=True,
                     shards_thorough=6, shrink=False, suppress_too_slow=True, cost=cost, min_nontrivial_frac=0.5,
                     rule="run in two fresh interpreters with different PYTHONHASHSEED, global seeds and clock; "
                          "non-trivial = parameters changed")
